@@ -749,8 +749,10 @@ func canonicalKey(v *Verdict, n1 *ast.FileNode) {
 		k = "comment-lost:duplicate-import"
 	case strings.HasPrefix(k, "not-idempotent:whitespace") && strings.HasPrefix(v.Formatted, "\n"):
 		k = "not-idempotent:whitespace:leading-blank-line"
-	case strings.HasPrefix(k, "not-idempotent:whitespace-at-comment:block-multiline"):
+	case strings.HasPrefix(k, "not-idempotent:whitespace-at-comment:block-multiline"), strings.HasPrefix(k, "not-idempotent:content-at-comment:block-multiline"):
 		k = "not-idempotent:whitespace:multiline-block-comment"
+	case strings.HasPrefix(k, "not-idempotent:content-at-comment"):
+		k = "not-idempotent:comment-restyled"
 	case strings.HasPrefix(k, "not-idempotent:whitespace-at-comment"):
 		k = "not-idempotent:whitespace:comment-spacing"
 	}
@@ -889,11 +891,18 @@ func runOracleRaw(c *Case) Verdict {
 				allOnEmpty = false
 			}
 		}
+		// classify by the first lost comment that is not explained by the empty-statement finding
 		key := "comment-lost"
-		for _, x := range cm1 {
-			if x.Text == lost[0] {
-				key = "comment-lost:" + x.where()
-				break
+		isLost := map[string]bool{}
+		for _, l := range lost {
+			isLost[l] = true
+		}
+		for pass := 0; pass < 2 && key == "comment-lost"; pass++ {
+			for _, x := range cm1 {
+				if isLost[x.Text] && (pass == 1 || !x.OnEmpty) {
+					key = "comment-lost:" + x.where()
+					break
+				}
 			}
 		}
 		if allOnEmpty {
@@ -988,7 +997,7 @@ func classifyNonIdempotent(c *Case, n *ast.FileNode, out1, out2 string) string {
 	if s, changed := blankComments(c.Source, n, -1); changed && idem(s) {
 		// which single comment is responsible?
 		cms, _ := collectComments(n)
-		for i := 0; i < len(cms) && i < 60; i++ {
+		for i := 0; i < len(cms) && i < 25; i++ {
 			if s1, ok := blankComments(c.Source, n, i); ok && idem(s1) {
 				style := "line"
 				if strings.HasPrefix(cms[i].Raw, "/*") {
